@@ -25,7 +25,8 @@ func init() {
 			{Name: "seed-unsorted", File: "pkg/resource/collection.go", Old: "\t\t\tsort.Slice(currentValues, func(i, j int) bool {\n\t\t\t\treturn currentValues[i].id < currentValues[j].id\n\t\t\t})\n", New: "", Expect: "R04.4"},
 			{Name: "seed-time-now", File: "pkg/resource/collection.go", Old: "\t\t\t\t\tChangeTime:    value.changeTime,", New: "\t\t\t\t\tChangeTime:    c.clock.Now(),", Expect: "R04.4"},
 			{Name: "skip-odd-events", File: "pkg/resource/value.go", Old: "\t\t\tif r.equivalence != nil && r.equivalence.Compare(last, change.Value) {", New: "\t\t\tif r.equivalence == nil || r.equivalence.Compare(last, change.Value) {", Expect: "R04.5"},
-			{Name: "compare-before-filter", File: "pkg/resource/collection.go", Old: "\t\t\tchange = change.filter(filter)\n\t\t\tif c.equivalence != nil && c.equivalence.Compare(change.OldValue, change.NewValue) {\n\t\t\t\tcontinue\n\t\t\t}", New: "\t\t\tif c.equivalence != nil && c.equivalence.Compare(change.OldValue, change.NewValue) {\n\t\t\t\tcontinue\n\t\t\t}\n\t\t\tchange = change.filter(filter)", Expect: "R04.6"},
+			{Name: "compare-before-filter", File: "pkg/resource/collection.go", Old: "\t\t\t\tif c.equivalence.Compare(last, change.NewValue) {", New: "\t\t\t\tif c.equivalence.Compare(last, event.(*CollectionChange).NewValue) {", Expect: "R04.6"},
+			{Name: "held-keeps-unprojected-value", File: "pkg/resource/collection.go", Old: "\t\t\t\t} else {\n\t\t\t\t\theld[change.Id] = change.NewValue\n", New: "\t\t\t\t} else {\n\t\t\t\t\theld[change.Id] = event.(*CollectionChange).NewValue\n", Expect: "R04.6"},
 		},
 	})
 }
@@ -597,25 +598,66 @@ func r046(c *an.Ctx, rule string) {
 				args := call.Common().Args
 				ok := len(args) == 2
 				var flds []string
-				for _, a := range args {
+				// a projected field: change.<fld> with change the result of CollectionChange.filter
+				projected := func(a ssa.Value) (string, bool) {
 					base, _, fld, isF := an.FieldOf(a)
-					flds = append(flds, fld)
 					if !isF {
-						ok = false
-						continue
+						return "", false
 					}
-					filtered := false
 					for _, src := range an.Sources(base) {
 						if cl, isCall := src.(*ssa.Call); isCall && strings.HasSuffix(an.CalleeName(cl), "CollectionChange).filter") {
-							filtered = true
+							return fld, true
 						}
 					}
-					if !filtered {
+					return fld, false
+				}
+				for i, a := range args {
+					if i == 0 {
+						// the reference: the projected old value, or the projected value last delivered for the id
+						// (looked up in a map that only ever receives projected new values)
+						seen := map[ssa.Value]bool{}
+						var walk func(v ssa.Value)
+						walk = func(v ssa.Value) {
+							if seen[v] {
+								return
+							}
+							seen[v] = true
+							switch x := v.(type) {
+							case *ssa.Phi:
+								for _, e := range x.Edges {
+									walk(e)
+								}
+							case *ssa.Extract:
+								walk(x.Tuple)
+							case *ssa.Lookup:
+								an.Instrs(f, func(in ssa.Instruction) {
+									if mu, isMU := in.(*ssa.MapUpdate); isMU && mu.Map == x.X {
+										if fld, isP := projected(mu.Value); !isP || fld != "NewValue" {
+											ok = false
+										}
+									}
+								})
+							default:
+								if an.IsNilConst(v) {
+									return
+								}
+								if fld, isP := projected(v); !isP || fld != "OldValue" {
+									ok = false
+								}
+							}
+						}
+						walk(a)
+						flds = append(flds, "OldValue")
+						continue
+					}
+					fld, isP := projected(a)
+					flds = append(flds, fld)
+					if !isP {
 						ok = false
 					}
 				}
 				ok = ok && len(flds) == 2 && flds[0] == "OldValue" && flds[1] == "NewValue"
-				c.Check(ok, rule, name+"|equivalence compares projected old and new", call.Pos(), "Compare(filtered.OldValue, filtered.NewValue)", "the equivalence test does not compare the projected old value with the projected new value")
+				c.Check(ok, rule, name+"|equivalence compares projected old and new", call.Pos(), "Compare(held-or-filtered.OldValue, filtered.NewValue)", "the equivalence test does not compare the projected reference value (last delivered, or old) with the projected new value")
 			}
 		}
 		if n == 0 {
